@@ -73,6 +73,16 @@ class CountingAction:
         import copy
         return copy.deepcopy(self.orig, memo)
 
+    # library code that compares an event's action with one of its own methods sees the wrapped action
+    def __eq__(self, other):
+        return self.orig == (other.orig if isinstance(other, CountingAction) else other)
+
+    def __ne__(self, other):
+        return not self.__eq__(other)
+
+    def __hash__(self):
+        return hash(self.orig)
+
 
 class QueueMonitor:
     def __init__(self, report, count, exact=True, wrap_actions=True, owner=None):
